@@ -522,11 +522,28 @@ class Engine:
         raise Unsupported(f"unbound name {n}")
 
     def e_Tuple(self, st, node):
-        vs = [self.eval(st, e) for e in node.elts]
-        if any(isinstance(x, ast.Starred) for x in node.elts):
-            raise Unsupported("starred tuple")
-        vs = [self.unbox_value(st, v) for v in vs]
+        vs = []
+        for e in node.elts:
+            if isinstance(e, ast.Starred):
+                # (*t,) with t a fixed-arity tuple
+                tv = self.deref(st, self.eval(st, e.value))
+                if not (isinstance(tv, V) and isinstance(tv.t, Ty.Tuple)):
+                    raise Unsupported("starred element that is not a fixed-arity tuple")
+                vs.extend(Ty.split(tv.t, tv.c))
+            else:
+                vs.append(self.unbox_value(st, self.eval(st, e)))
         return Ty.mk_tuple(vs)
+
+    def e_Yield(self, st, node):
+        """A generator is modelled by the list of the values it yields (consumed eagerly, in order):
+        `yield v` appends to the hidden list that becomes the function's result."""
+        ref = st.vars.get("__yields__")
+        if ref is None:
+            raise Unsupported("yield outside a function declared to return a list")
+        lv = st.heap[ref.id]
+        val = self.coerce(self.unbox_value(st, self.eval(st, node.value)), lv.t.e)
+        st.heap[ref.id] = V(lv.t, [lv.c[0] + 1] + [z3.Store(a, lv.c[0], c) for a, c in zip(lv.c[1:], val.c)])
+        return Ty.mk_none()
 
     def unbox_value(self, st, v):
         """Value semantics for nesting a container inside a tuple/list element."""
